@@ -355,6 +355,9 @@ def run(ctx):
         # every log level the command line offers: the report must not depend on it
         lvl = [[], ["-l", "i"], ["-l", "dd"], ["--log_level", "d"]][len(cli_jobs) // 2 % 4]
         cli_jobs.append(dict(op="solver_cli", path="inputs/%s.py" % st, text=repr(games), argv=["-f", "inputs/%s.py" % st, "-s"] + lvl, limit=60))
+        if len(cli_jobs) == 1:
+            # the file is given by a bare relative name while another file of that name sits under inputs/: -f names the former
+            cli_jobs[-1].update(path="%s.py" % st, argv=["-f", "%s.py" % st, "-s"] + lvl, decoys={"inputs/%s.py" % st: "{'decoy': {}}"})
         if len(cli_jobs) % 4 == 3:
             # the input is a symbolic link to a file of another name: the report is still named after the file that was given
             cli_jobs[-1]["link_to"] = "batch_2024_07.py"
@@ -449,6 +452,17 @@ def run(ctx):
         ctx.violation("a file denoting no game, saved with an older report of the same name present: files %s, report %r (expected an "
                       "empty outputs/empty_batch.txt)" % (re_.get("files"), (re_.get("text") or "")[:80] if "ok" in re_ else re_),
                       dict(text="{}", path="inputs/empty_batch.py", stale_report=True))
+
+    # ---- one path read twice in one process, replaced in between by a different text of the same length with the old timestamp
+    t1 = "{'g': {'rewards': [1, 0], 'players': ['Player 1', 'Probabilistic'], 'transition_list': [[('a', 1)], [(1, 1)]], 'final_states': [1]}}"
+    t2 = t1.replace("[1, 0]", "[7, 0]").replace("('a', 1)", "('b', 1)")
+    rt = impl.run_cases([dict(op="read_twice", first=t1, second=t2, limit=30)], tag="c16t")[0]
+    ctx.evaluations += 1
+    ctx.count("same path read twice (same length, same timestamp)")
+    if "ok" not in rt or not same(dec(rt["ok"]), safe_eval(t2)):
+        ctx.violation("a path read a second time in one process, after the file was replaced by another text of the same length and "
+                      "timestamp, does not give the games the file denotes now: %s" % (str(dec(rt["ok"]))[:200] if "ok" in rt else rt),
+                      dict(kind="read twice", text=t2, first_text=t1))
 
     # ---- command line
     for k in range(0, len(rcli), 2):
